@@ -44,6 +44,21 @@ def view(env, render):
              state_readable=norm(env.current_state.get_readable()),
              obs_readable=norm(env.last_obs.get_readable()),
              goal=bool(env.goal_reached()))
+    def q(fn):
+        try:
+            with contextlib.redirect_stdout(io.StringIO()):
+                return fn()
+        except Exception as e:
+            inside, where = engine.from_nasim(sys.exc_info()[2])
+            if not inside:
+                raise
+            return f"raises {type(e).__name__}"
+    # the read-only public methods: same answers (or the same exception) whether or not other environments exist
+    v["initial_state"] = q(lambda: env.generate_initial_state().tensor.tobytes())
+    v["hops"] = q(lambda: int(env.get_minimum_hops()))
+    v["bound"] = q(lambda: float(env.get_score_upper_bound()))
+    if hasattr(env.action_space, "n"):
+        v["mask"] = q(lambda: np.asarray(env.get_action_mask()).tobytes())
     if render:
         b = io.StringIO()
         with contextlib.redirect_stdout(b):
